@@ -84,6 +84,17 @@ def run(tier, seed):
                 v.tlc_ok(r, "TraceStore(clocksat)")
             st["traces"] += 1
             st["events"] += g["events"]
+    # crash recovery feeding the clock: multi-session crash workloads (explicit future versions, crash between
+    # the replacement write and the retirement of the old generation, restart, automatic writes)
+    import crashengine as ce
+    cjobs = [("cr%d" % i, ["--seed", str(rng.randrange(1 << 30)), "--steps", "30", "--blocks", "44", "--cpus", "2",
+                           "--keys", "3", "--ttl", "1", "--end", "leak", "--sessions", "4", "--maximages", "0",
+                           "--cc", "0", "--flushpct", "10"]) for i in range(10 if tier == "quick" else 80)]
+    v3, st3, _ = ce.run_and_validate(PROP, fxv, rd, cjobs, ["AutoNeverOlder"])
+    viol += v3
+    st["traces"] += st3["traces"]
+    st["states"] += st3["states"]
+    st["transitions"] += st3["transitions"]
     cov = q.coverage_dict(
         st, sum(r.distinct for r in mc), sum(r.generated for r in mc),
         "one trace = one seeded program mixing automatic and explicit (past, future, equal, +1, "
